@@ -22,7 +22,7 @@ RULE = (
     'cumulative_displacements, distances, MSD, metrics, drift, to_volume, transitions_between_sites, '
     'center_of_mass, filter by str / list, [int], slices with negative start/stop and steps 1-3, split with and '
     'without equal_parts, extend) on a pool of up to 8 live trajectories (lattice zoo, 2-4 species incl. S/Si, '
-    'hostile face-adjacent coordinates).  After every step every live object is probed via a deep copy and '
+    'hostile face-adjacent coordinates; every fifth history runs on a 1/16 coordinate grid with steps of exactly half a cell, where all arithmetic is exact and every route must pick the same image).  After every step every live object is probed via a deep copy and '
     'compared with a sequential numpy model.  Non-trivial = the history contains at least one derivation '
     '(filter/slice/split/extend) executed while the source was in displacement representation; distinct = the '
     'operation sequence (names + arguments).'
@@ -123,10 +123,20 @@ def run_unit(unit, rng, ctx):
         H = np.array([h for h in gen.HOSTILE if h != 0.5])
         sel = rng.uniform(size=U.shape) < 0.1
         U = np.where(sel, np.round(U) + H[rng.integers(len(H), size=U.shape)], U)
+    dyadic = unit['i'] % 5 == 3
+    if dyadic:
+        # coordinates on a 1/16 grid, handed over wrapped, with steps of EXACTLY half a cell: all arithmetic is
+        # exact, so whichever image the code picks for such a step it must pick the same one on every route
+        # (the sequential model uses numpy's own rounding of the exact step)
+        stepset = np.array([0, 1 / 16, -1 / 16, 1 / 8, -1 / 8, 1 / 4, -1 / 4, 0.5, -0.5])
+        pst = np.array([4, 2, 2, 2, 2, 2, 2, 3, 3], dtype=float)
+        U = np.cumsum(np.concatenate([rng.integers(0, 16, size=(1, N, 3)) / 16, rng.choice(stepset, p=pst / pst.sum(), size=(T - 1, N, 3))]), axis=0)
+        ctx.count('dyadic_histories_with_exact_half_cell_steps')
+        ctx.count('exact_half_cell_steps', int(np.sum(np.abs(np.diff(U, axis=0)) == 0.5)))
     dt = 1e-15
     meta = {'temperature': 300.0 + unit['i'], 'note': 'x'}
     sp = gen.species_objects(names, rng=rng)
-    X = U if rng.integers(2) else U - np.floor(U)
+    X = U if (rng.integers(2) and not dyadic) else U - np.floor(U)
     root = gen.make_trajectory(m, sp, X, time_step=dt, metadata=dict(meta))
     pool = [Live(root, wrap01(X), names, m, dt, dict(meta), 'root')]
     hist = []
